@@ -672,6 +672,9 @@ func writeEvidence(c *check, tier string, m *shardResult, nviol int, wall time.D
 	if trans < 1 {
 		trans = m.Evaluations
 	}
+	if trans < 1 {
+		trans = 1
+	}
 	cov := map[string]any{
 		"evaluations":                   m.Evaluations,
 		"distinct_nontrivial":           m.Nontrivial,
